@@ -20,8 +20,10 @@ Section Comparator.
      kinds at a target-specified path p (leaf replaced by a value that is not
      the same leaf — incl. bool<->int, null, container —; container replaced
      by another kind; key removed; ordered list length changed; list element
-     deviates; set-directed list gains/loses a member; element of a
-     compare-as-map list deviates / is lost), l being a live object that
+     deviates; set-directed list gains/loses a member (membership tells a
+     bool from the int it equals); element of a compare-as-map list deviates
+     / is lost; a compare-as-map value that is no longer null or a list of
+     maps), l being a live object that
      matched.  [wf t]: the target's maps have unique keys (Python dicts). *)
   Theorem C05_drift_detected : forall t s p l l' la,
     wf t = true -> vmatch t l la s = O_match -> deviates t s p l l' ->
@@ -49,37 +51,64 @@ Section Comparator.
   Proof. exact deviates_specified. Qed.
 End Comparator.
 
-(* The two side conditions built into [deviates] are real defects of the
-   unchanged code (known findings, see notes/C05.md):
+(* Two defects found by this check were repaired in /repo (b382e54, d125f7c);
+   the model follows the repaired code and [deviates] carries no side
+   condition any more:
 
-   (a) membership in a set-directed list is Python-set membership, which
-       conflates true/1/1.0: retyping a member between bool and int is a
-       retyped leaf at a specified path, and is NOT detected; *)
-Theorem C05_set_member_retype_refuted :
+   (a) membership in a set-directed list compares (is_bool, value) pairs, so a
+       member retyped between bool and int IS a lost member and is detected
+       (1 and 1.0 are still the same member); *)
+Theorem C05_set_member_retype_detected :
   exists t l l',
     vmatch t l None false = O_match /\
     (* l' = l with the member 1 of the set-directed list "s" retyped to true *)
-    l = JMap [("s", JList [JInt 1; JStr "a"])] /\
-    l' = JMap [("s", JList [JBool true; JStr "a"])] /\
-    leaf_same (JInt 1) (JBool true) = false /\
-    vmatch t l' None false = O_match.
+    l = JMap [("s", JList [JStr "a"; JInt 1])] /\
+    l' = JMap [("s", JList [JStr "a"; JBool true])] /\
+    deviates t false [SKey "s"] l l' /\
+    vmatch t l' None false = O_false /\
+    vmatch t (JMap [("s", JList [JFloat 1 0; JStr "a"])]) None false = O_match.
 Proof.
   exists wa_target, wa_live, wa_live'.
-  destruct set_boolint_not_detected as [A [B [C _]]]. repeat split; auto.
+  destruct set_boolint_detected as [A [B [C D]]]. repeat split; auto.
 Qed.
 
-(* (b) under x-koreo-compare-as-map a live value that is no longer a list of
-       maps makes validate_match RAISE (AttributeError / TypeError) instead
-       of reporting drift; reconcile_krm_resource then raises and no
-       correction is made. *)
-Theorem C05_as_map_retype_refuted :
+(* in general: a bool is never a member of a list without bools *)
+Theorem C05_set_membership_tells_bool_from_int : forall b l,
+  (forall y, In y l -> forall c, y <> JBool c) -> set_mem (JBool b) l = false.
+Proof. exact set_mem_bool_int. Qed.
+
+(* (b) under x-koreo-compare-as-map a live value that is neither null nor a
+       list of maps is reported as a mismatch ([dev_key_as_map_retyped] is one
+       of the deviation kinds of C05_drift_detected; here on concrete values) *)
+Theorem C05_as_map_retype_detected :
   exists t l,
     vmatch t l None false = O_match /\
-    vmatch t (JMap [("m", JStr "str")]) None false = O_raise VAttributeError /\
-    vmatch t (JMap [("m", JList [JInt 1])]) None false = O_raise VAttributeError /\
-    vmatch t (JMap [("m", JInt 5)]) None false = O_raise VTypeError /\
-    vmatch t (JMap [("m", JMap [("name", JStr "a")])]) None false = O_raise VAttributeError.
-Proof. exists wb_target, wb_live. exact as_map_retype_raises. Qed.
+    vmatch t (JMap [("m", JStr "str")]) None false = O_false /\
+    vmatch t (JMap [("m", JList [JInt 1])]) None false = O_false /\
+    vmatch t (JMap [("m", JInt 5)]) None false = O_false /\
+    vmatch t (JMap [("m", JMap [("name", JStr "a")])]) None false = O_false.
+Proof. exists wb_target, wb_live. exact as_map_retype_detected. Qed.
+
+(* ... and the tail then performs the policy's action *)
+Theorem C05_as_map_retype_corrected : forall cfg tk ak k tv v' sk lk cfg' fields ann ann' rr' la,
+  wf (JMap tk) = true ->
+  extract_last_applied_r (JMap ak) ann = Done la -> vmatch (JMap tk) (JMap ak) la false = O_match ->
+  dirs_of tk = Some (sk, lk, cfg') -> lookup k tk = Some tv -> specified_key lk k = true ->
+  lookup k cfg' = Some fields -> shape_ok v' = false ->
+  let l' := JMap (set_key k v' ak) in
+  extract_last_applied_r l' ann' = Done la ->
+  (if tc_should_own cfg then validate_owner_reffed_r l' (tc_owner_ref cfg) else Done (Reffed true)) = Done rr' ->
+  tail cfg (JMap tk) l' ann' =
+    Some (match tc_update cfg with
+          | PNever => (TLive l', [])
+          | PRecreate d => (TRetry d "spec.update.recreate", [CDelete])
+          | PPatch d => patch_branch cfg (JMap tk) l' rr' d
+          end).
+Proof.
+  intros cfg tk ak k tv v' sk lk cfg' fields ann ann' rr' la W E M D Lk Sp C Sh l' E' R.
+  eapply (drift_corrected_thm cfg (JMap tk) (JMap ak) l' [SKey k]); eauto.
+  eapply dev_key_as_map_retyped; eauto.
+Qed.
 
 Section Dispatch.
   (* "... a managing ResourceFunction performs exactly the action its update
@@ -148,9 +177,7 @@ Section Dispatch.
             | PRecreate d => (TRetry d "spec.update.recreate", [CDelete])
             | PPatch d => patch_branch cfg t l' rr' d
             end).
-  Proof.
-    intros. eapply (drift_corrected_thm cfg t l l' p ann ann' rr' rr' la); eauto.
-  Qed.
+  Proof. exact drift_corrected_thm. Qed.
 End Dispatch.
 
 (* "After a patch the object meets the target again": whatever the live object
@@ -232,8 +259,10 @@ Print Assumptions C05_drift_detected.
 Print Assumptions C05_drift_detected_fuel.
 Print Assumptions C05_fuel_irrelevant.
 Print Assumptions C05_deviation_at_specified_path.
-Print Assumptions C05_set_member_retype_refuted.
-Print Assumptions C05_as_map_retype_refuted.
+Print Assumptions C05_set_member_retype_detected.
+Print Assumptions C05_set_membership_tells_bool_from_int.
+Print Assumptions C05_as_map_retype_detected.
+Print Assumptions C05_as_map_retype_corrected.
 Print Assumptions C05_dispatch.
 Print Assumptions C05_patch_payload.
 Print Assumptions C05_patch_payload_owner.
